@@ -12,7 +12,7 @@ V = [
     {"a": 1, "b": 2}, {"a": 1, "b": "x"}, {"a": 1, "b": 2, "c": 3}, {"a": {"a": 1}}, {"a": [1]},
     {"a b": 1, "a_b": 2}, {"class": 1}, {"a": 2, "b": 1}, {"1": 1},
     # the empty member name, alone and after another member; numbers far from the small keyword parameters
-    {"": 1}, {"a": 1, "": 2}, 1000000000.25, 30000000001, 4503599627370497, 9007199254740993, -1000000000.25, "a" * 40, list(range(12)),
+    {"": 1}, {"a": 1, "": 2}, 1000000000.25, 30000000001, 4503599627370497, 9007199254740993, 2 ** 1023, -(2 ** 1023), -1000000000.25, "a" * 40, list(range(12)),
 ]
 
 # a smaller probe set for histories / schedules (one witness per JSON type + lookalikes)
